@@ -6,17 +6,15 @@ from . import core, purefn
 
 _LINE = re.compile(r'^<<\s*"MISMATCH",\s*(\d+),')
 _KNOWN = re.compile(r'^<<\s*"KNOWN",\s*(\d+),\s*"([^"]+)"')
-PROPOSED = os.path.join(core.ROOT, "work", "proposed_fixes", "known_C03_C19.json")
 
 
 def open_signatures(pid):
-    """Open findings (known_findings.json, plus the not yet registered proposals of this task).
-    Every open signature is a deviation the trace spec may follow; it is REPORTED only by the checks
-    of the properties it violates."""
+    """Open findings of known_findings.json (the only authority).  Only status == "open" entries are passed
+    to the trace spec as allowed deviations (a fixed finding suppresses nothing: a regression is reported
+    again); a deviation is REPORTED only by the checks of the properties it violates."""
     sigs = {}
-    for p in (os.path.join(core.ROOT, "known_findings.json"), PROPOSED):
-        if not os.path.exists(p):
-            continue
+    p = os.path.join(core.ROOT, "known_findings.json")
+    if os.path.exists(p):
         for k in json.load(open(p)).get("findings", []):
             if k.get("status") == "open" and k.get("signature"):
                 k = dict(k, mine=(k.get("property") == pid or pid in k.get("also", [])))
@@ -137,6 +135,9 @@ TRUSTED = [
     "TLC on every run (MCCmds.tla)",
     "the command sets are the library's scope: Class B MAC commands (0x10-0x13), proprietary CIDs and the TS009 commands "
     "the library does not implement (listed in MacCmds!*Unsupported) are expected to be reported as unknown CIDs",
+    "DISPUTED entry (DESIGN 7.1): TimeToStart of McClassCSessionAns/McClassBSessionAns (TS005) is read as conditional "
+    "(absent when an error bit is set) or as always present; both framings are accepted (MacCmds!ItemsAccepted), any "
+    "third behaviour is reported",
     "the recorder binds accessors / setters to MacCmds.tla field names (table at the top of harness/src/cmdobs.rs); a "
     "wrong binding shows up as a mismatch, a missing accessor is a coverage gap reported in the evidence",
 ]
